@@ -113,8 +113,24 @@ func VerifC14History() {
 	zzverif.Reach("non-empty-net")
 
 	real := proto()
-	for _, s := range hist {
+	// OBS=1: the value is additionally READ once at an arbitrary intermediate point of the history
+	// (whenever the running multiset is non-empty there); reading must not disturb later results.
+	obsAt := -1
+	if zzverif.Param("OBS") == 1 {
+		obsAt = zzverif.Choice("observe-after-step", len(hist))
+	}
+	running := 0
+	for i, s := range hist {
 		real.Add(s.Retraction, s.Value)
+		if s.Retraction {
+			running--
+		} else {
+			running++
+		}
+		if i == obsAt && running > 0 && i < len(hist)-1 {
+			_ = real.Trigger()
+			zzverif.Reach("observed-mid-history")
+		}
 	}
 	got := real.Trigger()
 
